@@ -492,6 +492,8 @@ where
 			for _ in id_range.clone() {
 				batch_response.push(Err(ErrorObject::borrowed(0, "", None)));
 			}
+			// A second answer to an entry answers nothing that is pending.
+			let mut answered = vec![false; batch_response.len()];
 
 			for rp in rps.into_iter() {
 				let id = rp.id().try_parse_inner_as_number()?;
@@ -512,10 +514,12 @@ where
 				let maybe_elem = id
 					.checked_sub(id_range.start)
 					.and_then(|p| p.try_into().ok())
-					.and_then(|p: usize| batch_response.get_mut(p));
+					.filter(|p: &usize| !answered.get(*p).copied().unwrap_or(true))
+					.and_then(|p: usize| batch_response.get_mut(p).map(|elem| (p, elem)));
 
-				if let Some(elem) = maybe_elem {
+				if let Some((p, elem)) = maybe_elem {
 					*elem = res;
+					answered[p] = true;
 				} else {
 					return Err(InvalidRequestId::NotPendingRequest(id.to_string()).into());
 				}
